@@ -1,16 +1,37 @@
+import os
 import sys
 from . import driver
+
 
 def main(argv):
     if argv and argv[0] == "verify":
         verbose = "-v" in argv
         names = [a for a in argv[1:] if not a.startswith("-")]
         for n in names:
-            res = driver.verify_function(n)
+            res = driver.verify_lemma(n) if "/" in n else driver.verify_function(n)
             driver.print_result(res, verbose)
         return 0
-    print("usage: python -m pyvc verify <qualname>...")
+    if argv and argv[0] == "check":
+        from . import check
+        pid = argv[1]
+        tier = os.environ.get("VERIF_TIER", "quick")
+        if "--tier" in argv:
+            tier = argv[argv.index("--tier") + 1]
+        seed = int(os.environ.get("VERIF_SEED", "0") or 0)
+        return check.run_check(pid, tier, seed=seed)
+    if argv and argv[0] == "setup":
+        # self-test of the solvers; nothing to build (pure Python, stdlib + z3 from the tooling venv)
+        import z3, subprocess
+        s = z3.Solver(); x = z3.Int("x"); s.add(x > 1, x < 3)
+        assert s.check() == z3.sat
+        out = subprocess.run(["/usr/bin/cvc5", "--version"], capture_output=True, text=True).stdout.splitlines()[0]
+        print("z3", z3.get_version_string(), "|", out)
+        driver.load_contracts()
+        print("contracts:", len(driver.REG.contracts), "loops:", len(driver.REG.loops), "lemmas:", len(driver.REG.lemmas))
+        return 0
+    print("usage: python -m pyvc verify <qualname>... | check <ID> [--tier quick|thorough]")
     return 2
+
 
 if __name__ == "__main__":
     sys.exit(main(sys.argv[1:]))
